@@ -99,7 +99,7 @@ def gen(tier, rng, harness=None, driver=None):
         lines.append("!mod.mustfail - %s" % hx(text))
     # explicit parameter IDs of DECLARATIONS: LLVM's numberings are accepted (and printed, and read again), every other one is rejected — not accepted and left
     # for the printer to fail on
-    for kind, text, ok in localgen.declaration_numberings():
+    for kind, text, ok in localgen.declaration_numberings() + localgen.global_numberings():
         lines.append(("!mod.stable - %s" if ok else "!mod.mustfail - %s") % hx(text))
     if tier == "thorough":
         forms = ["P:i", "P:n", "B:i", "B:n", "V:n", "S", "C", "R", "IV"]
